@@ -134,7 +134,7 @@ class Run:
         self.sessions = list(cfg["Session"])
         self.maxc = cfg["MaxCommit"]
         self.world = World(cfg.get("render", "plain"), cfg.get("filefam", "plain"), cfg.get("InitKind", "base"),
-                           cfg.get("salt", 0))
+                           cfg.get("salt", 0), cfg.get("BaseLines", 2))
         self.dir = tempfile.mkdtemp(prefix="run-", dir=scratch)
         self.repo = os.path.join(self.dir, "r")
         self.home = os.path.join(self.dir, "home")
@@ -177,7 +177,7 @@ class Run:
             self.plain(["config", k, v])
         if cfg.get("InitKind", "base") == "base":
             f0 = cfg.get("F0", self.files[0])
-            self.write(f0, [[1, 0], [2, 0]])
+            self.write(f0, [[u, 0] for u in range(1, cfg.get("BaseLines", 2) + 1)])
             self.plain(["add", "-A"])
             self.plain(["commit", "-q", "-m", "base"], dated=True)
             self._register_new_commits("init")
